@@ -8,7 +8,8 @@ import vlib
 GEN = ["GenHashSites"]
 TRUSTED = [
     "Coq 8.16.1 kernel; vm_compute for C16_sites_covered / C16_all_sites_order_free; no axioms",
-    "translator tools/gens/gen_hashsites.py (finds iterations over identifiers that are bound to a HashMap/HashSet anywhere in the five crates; over-approximates by name)",
+    "translator tools/gens/gen_hashsites.py (finds iterations over identifiers that are bound to a HashMap/HashSet anywhere in the five crates; over-approximates by name; lists every hand-written PartialEq/Ord/Hash impl with its derives and bodies)",
+    "coq/Det/DocKeyTypes.v: the hand review of which fields each hand-written equality / hash reads; Det/HashKeys.v as the model of a hash map (buckets indexed by the hash value)",
     "coq/Det/DocHashSites.v: the hand review that assigns each site its consumer class (NotHash entries rest on reading the Rust types)",
     "Det/Consumers.v as the model of the consumer shapes (collect-into-map, min, first-error, sorted-first-error)",
     "the repetition oracle: harness `repeat` (in-process) and separate harness processes (fresh RandomState per process and per map)",
@@ -32,6 +33,41 @@ def gen_cases(ctx):
     for _ in range(120 if ctx.tier == "quick" else 1500):
         st.append(("multi-error", noise_gen.multi_error(r), "nostd,render"))
     return st
+
+
+def rare_cases(ctx):
+    """inputs whose verdict goes through a hash-keyed lookup of an EQUAL BUT NOT IDENTICAL key (a repeated blob
+    field / enum variant: two Identifiers with the same name and different spans).  With an inconsistent Hash the
+    lookup misses unless the hashes collide (about 1% of the random states), so these are repeated many times."""
+    r = vlib.rng(ctx.seed, "c16-rare")
+    out = []
+    names = ["a", "b", "value", "x1", "Zed"]
+    for k in range(6 if ctx.tier == "quick" else 24):
+        n = r.choice(names)
+        m = r.choice([x for x in names if x != n])
+        shape = k % 6
+        if shape == 0:
+            src = "B :: blob { %s: int, %s: int }\nstart :: fn do end\n" % (n, n)
+        elif shape == 1:
+            src = "B :: blob { %s: int, %s: str, %s: int }\nstart :: fn do end\n" % (n, m, n)
+        elif shape == 2:
+            src = "E :: enum %s, %s end\nstart :: fn do end\n" % (n.capitalize(), n.capitalize())
+        elif shape == 3:
+            src = "E :: enum %s int, %s, %s str end\nstart :: fn do end\n" % (n.capitalize(), m.capitalize(), n.capitalize())
+        elif shape == 4:
+            src = "B :: blob {\n  %s: int,\n  %s: int,\n\n  %s: int,\n}\nstart :: fn do end\n" % (n, m, n)
+        else:
+            src = "start :: fn do\n  x := 1\nend\nB :: blob { %s: fn -> int, %s: fn -> int }\n" % (n, n)
+        out.append(("duplicate-key", {"/main.sy": src}, "nostd,render"))
+    return out
+
+
+def run_rare(ctx, cases):
+    lines = [noise_gen.case_line(f, flags=fl) for _, f, fl in cases]
+    reps = 500 if ctx.tier == "quick" else 4000
+    res = vlib.sharded(lambda cs: vlib.run_lines([vlib.HARNESS_BIN, "--timeout", "120", "repeat", str(reps)], cs, 120), lines)
+    bad = [i for i, x in enumerate(res) if not x.startswith("D ") or len(set(x.split(" ")[1:])) > 1]
+    return bad, res, reps
 
 
 def run_all(ctx, cases):
@@ -62,15 +98,24 @@ def tie(ctx):
     for i in bad[:5]:
         mism.append({"class": cases[i][0], "files": cases[i][1], "outputs": sorted(set(c[i][:200] for c in cross))})
     ctx.c16_bad = [cases[i] for i in bad]
+    rare = rare_cases(ctx)
+    rbad, rres, rreps = run_rare(ctx, rare)
+    for i in rbad[:3]:
+        mism.append({"class": rare[i][0], "files": rare[i][1],
+                     "outputs": "%d distinct results in %d in-process compilations" % (len(set(rres[i].split(" ")[1:])), rreps)})
+    ctx.c16_bad += [rare[i] for i in rbad]
+    dist["duplicate-key x%d" % rreps] = len(rare)
+    bad = bad + [len(cases) + i for i in rbad]
     distinct = len(set(noise_gen.case_line(f, flags=fl) for _, f, fl in cases if len(f) > 1 or len(next(iter(f.values()))) > 20))
     samples = [{"class": cases[i][0], "files": cases[i][1], "result": cross[0][i][:160]} for i in (0, len(cases) // 2, len(cases) - 1)]
-    return {"name": "repeat", "ok": not bad, "mismatches": mism, "evaluations": len(cases) * (reps + procs),
+    return {"name": "repeat", "ok": not bad, "mismatches": mism, "evaluations": len(cases) * (reps + procs) + len(rare) * rreps,
             "distinct_nontrivial": distinct,
             "rule": "mutated/spliced/truncated programs from /repo/tests, token soup, programs with 2-5 independent errors "
                     "(bad blob/enum field types, unknown generics, undefined names, duplicate globals, missing imports, bad "
                     "blob fields, bad case arms), multi-file projects with missing/conflicting/cyclic imports, valid programs; "
-                    "each compiled %d times in one process and in %d fresh processes; non-trivial = more than 20 bytes of source"
-                    % (reps, procs),
+                    "each compiled %d times in one process and in %d fresh processes; plus programs with a repeated blob field / "
+                    "enum variant (verdict goes through a hash lookup of an equal, not identical key), each compiled %d times "
+                    "in one process; non-trivial = more than 20 bytes of source" % (reps, procs, rreps),
             "samples": samples,
             "distribution": {"classes": dict(dist), "outcomes": dict(outcome), "errors_per_rejected_input": dict(nerr),
                              "in_process_repeats": reps, "processes": procs}}
@@ -82,6 +127,8 @@ def search(ctx):
         cases = gen_cases(ctx)
         idx, _, _, _, _ = run_all(ctx, cases)
         bad = [cases[i] for i in idx]
+        rare = rare_cases(ctx)
+        bad += [rare[i] for i in run_rare(ctx, rare)[0]]
     if not bad:
         return None
     bad.sort(key=lambda c: sum(len(s) for s in c[1].values()))
@@ -90,6 +137,11 @@ def search(ctx):
     outs = set()
     for _ in range(8):
         outs.add(vlib.harness("compile", [line], timeout_s=20)[0])
+    if len(outs) < 2:        # rare: collect the distinct outputs from many fresh processes
+        for _ in range(40):
+            outs |= set(vlib.harness("compile", [line] * 50, timeout_s=20))
+            if len(outs) > 1:
+                break
     return {"class": cls, "files": files, "flags": flags, "distinct_outputs": sorted(o[:400] for o in outs),
             "what": "the same sources compile to different results in different runs",
             "replay_cmd": "write the case line to a file and run `%s repeat 20 FILE`" % vlib.HARNESS_BIN, "case_line": line,
@@ -107,7 +159,9 @@ def replay(ctx, rep):
         return 0
     vlib.build_harness()
     outs = set()
-    for _ in range(10):
-        outs.add(vlib.harness("compile", [fi["case_line"]], timeout_s=20)[0])
+    for _ in range(40):
+        outs |= set(vlib.harness("compile", [fi["case_line"]] * 50, timeout_s=20))
+        if len(outs) > 1:
+            break
     print("distinct outputs:", len(outs))
     return 1 if len(outs) > 1 else 0
